@@ -1,6 +1,1268 @@
-//! C37 — not implemented yet.
+//! C37 — Vector encodings round-trip and SIMD kernels match Arrow.
+//!
+//! Code under test: `src/arrow_ffi/array.rs` (`encode_optimal`,
+//! `EncodedArray::decode`) and `src/arrow_ffi/codec.rs` (`filter_simd`,
+//! `compare_simd`, `add_simd`, `multiply_simd`, `sum_simd`, `count_simd`).
+//!
+//! Input domain (read from the code): any `ArrayRef`/`&dyn Array`; the helpers
+//! dispatch on `data_type()` and refuse other types with an explicit
+//! "Unsupported …" error (that refusal is not counted as a wrong answer and
+//! never counts as a non-trivial case). `filter_simd` takes a `&[bool]`
+//! predicate of the array's length.
+//!
+//! Generator: a *physical* array (values for every slot, also the slots that
+//! are NULL — the "hidden" values) + validity + a slice window. Values come
+//! from a per-case domain of 1..4 atoms expanded as runs, so constants, long
+//! runs, constant-except-a-NULL (hidden value equal to the constant or zero),
+//! all-NULL, single-NULL and sliced arrays are all constructed, not filtered.
+//!
+//! Oracles:
+//!  * round trip: `encode_optimal(a)?.decode()` (dictionary result cast back to
+//!    the value type) has the data type, length, validity and values of the
+//!    *generated logical content* (read from the case, not from Arrow);
+//!  * SIMD helpers: differential against `arrow::compute::filter`,
+//!    `kernels::cmp::*`, `kernels::numeric::{add,mul}_wrapping`,
+//!    `aggregate::sum`, `len - null_count` on the very same arrays. Integer
+//!    operands are bounded so no overflow is in play; float sums use exactly
+//!    representable addends so the summation order is irrelevant.
+//!
+//! Open findings are classified by precise signatures (see `known_findings.json`)
+//! and the part of the case behind the finding is still checked (e.g. the
+//! values at all positions where Arrow's result is valid).
 use super::Property;
+use crate::runner::*;
+use arrow::array::*;
+use arrow::buffer::{BooleanBuffer, NullBuffer, OffsetBuffer, ScalarBuffer};
+use arrow::datatypes::DataType;
+use proptest::prelude::*;
+use query_engine::arrow_ffi::{
+    add_simd, compare_simd, count_simd, encode_optimal, filter_simd, multiply_simd, sum_simd, CodecScalarValue,
+    CompareOp,
+};
+use serde::{Deserialize, Deserializer, Serialize, Serializer};
+use std::sync::Arc;
+
+// ---------------------------------------------------------------------------
+// case model
+// ---------------------------------------------------------------------------
+
+/// f64 that survives JSON (NaN/inf/-0.0) — serialized as Rust's `{:?}` text.
+#[derive(Clone, Copy, Debug)]
+pub struct Fl(pub f64);
+impl Serialize for Fl {
+    fn serialize<S: Serializer>(&self, s: S) -> Result<S::Ok, S::Error> {
+        s.serialize_str(&format!("{:?}", self.0))
+    }
+}
+impl<'de> Deserialize<'de> for Fl {
+    fn deserialize<D: Deserializer<'de>>(d: D) -> Result<Fl, D::Error> {
+        let s = String::deserialize(d)?;
+        s.parse::<f64>().map(Fl).map_err(serde::de::Error::custom)
+    }
+}
+
+#[derive(Clone, Copy, Debug, PartialEq, Eq, Serialize, Deserialize)]
+pub enum Ty {
+    I32,
+    I64,
+    F64,
+    Utf8,
+    Bool,
+}
+impl Ty {
+    fn arrow(self) -> DataType {
+        match self {
+            Ty::I32 => DataType::Int32,
+            Ty::I64 => DataType::Int64,
+            Ty::F64 => DataType::Float64,
+            Ty::Utf8 => DataType::Utf8,
+            Ty::Bool => DataType::Boolean,
+        }
+    }
+}
+
+/// physical slot values (also under NULL slots)
+#[derive(Clone, Debug, Serialize, Deserialize)]
+pub enum Phys {
+    I32(Vec<i32>),
+    I64(Vec<i64>),
+    F64(Vec<Fl>),
+    Utf8(Vec<String>),
+    Bool(Vec<bool>),
+}
+impl Phys {
+    fn len(&self) -> usize {
+        match self {
+            Phys::I32(v) => v.len(),
+            Phys::I64(v) => v.len(),
+            Phys::F64(v) => v.len(),
+            Phys::Utf8(v) => v.len(),
+            Phys::Bool(v) => v.len(),
+        }
+    }
+    fn ty(&self) -> Ty {
+        match self {
+            Phys::I32(_) => Ty::I32,
+            Phys::I64(_) => Ty::I64,
+            Phys::F64(_) => Ty::F64,
+            Phys::Utf8(_) => Ty::Utf8,
+            Phys::Bool(_) => Ty::Bool,
+        }
+    }
+}
+
+/// A physical array of `phys.len()` slots, viewed through `slice(off, len)`.
+#[derive(Clone, Debug, Serialize, Deserialize)]
+pub struct Arr {
+    pub phys: Phys,
+    /// validity per physical slot
+    pub valid: Vec<bool>,
+    pub off: usize,
+    pub len: usize,
+}
+
+/// logical cell
+#[derive(Clone, Debug)]
+pub enum Cell {
+    I(i64),
+    F(f64),
+    S(String),
+    B(bool),
+}
+fn cell_eq(a: &Cell, b: &Cell) -> bool {
+    match (a, b) {
+        (Cell::I(x), Cell::I(y)) => x == y,
+        (Cell::F(x), Cell::F(y)) => (x.is_nan() && y.is_nan()) || x.to_bits() == y.to_bits(),
+        (Cell::S(x), Cell::S(y)) => x == y,
+        (Cell::B(x), Cell::B(y)) => x == y,
+        _ => false,
+    }
+}
+fn opt_cell_eq(a: &Option<Cell>, b: &Option<Cell>) -> bool {
+    match (a, b) {
+        (None, None) => true,
+        (Some(x), Some(y)) => cell_eq(x, y),
+        _ => false,
+    }
+}
+
+impl Arr {
+    fn ty(&self) -> Ty {
+        self.phys.ty()
+    }
+    fn well_formed(&self) -> bool {
+        self.valid.len() == self.phys.len() && self.off + self.len <= self.phys.len()
+    }
+    fn sliced(&self) -> bool {
+        self.off > 0 || self.len < self.phys.len()
+    }
+    /// physical value of logical slot i
+    fn phys_cell(&self, i: usize) -> Cell {
+        let j = self.off + i;
+        match &self.phys {
+            Phys::I32(v) => Cell::I(v[j] as i64),
+            Phys::I64(v) => Cell::I(v[j]),
+            Phys::F64(v) => Cell::F(v[j].0),
+            Phys::Utf8(v) => Cell::S(v[j].clone()),
+            Phys::Bool(v) => Cell::B(v[j]),
+        }
+    }
+    fn is_valid(&self, i: usize) -> bool {
+        self.valid[self.off + i]
+    }
+    /// the logical content the array denotes
+    fn logical(&self) -> Vec<Option<Cell>> {
+        (0..self.len)
+            .map(|i| if self.is_valid(i) { Some(self.phys_cell(i)) } else { None })
+            .collect()
+    }
+    fn null_count(&self) -> usize {
+        (0..self.len).filter(|&i| !self.is_valid(i)).count()
+    }
+    /// longest run of equal logical cells (NULL = NULL)
+    fn max_run(&self) -> usize {
+        let l = self.logical();
+        let mut best = 0;
+        let mut cur = 0;
+        for i in 0..l.len() {
+            if i > 0 && opt_cell_eq(&l[i], &l[i - 1]) {
+                cur += 1;
+            } else {
+                cur = 1;
+            }
+            best = best.max(cur);
+        }
+        best
+    }
+    /// all physical values inside the window are equal (cells compared by bits)
+    fn phys_constant(&self) -> bool {
+        (1..self.len).all(|i| cell_eq(&self.phys_cell(i), &self.phys_cell(0)))
+    }
+    fn build(&self) -> ArrayRef {
+        let nulls = if self.valid.iter().all(|v| *v) {
+            None
+        } else {
+            Some(NullBuffer::from(self.valid.clone()))
+        };
+        let full: ArrayRef = match &self.phys {
+            Phys::I32(v) => Arc::new(Int32Array::new(ScalarBuffer::from(v.clone()), nulls)),
+            Phys::I64(v) => Arc::new(Int64Array::new(ScalarBuffer::from(v.clone()), nulls)),
+            Phys::F64(v) => Arc::new(Float64Array::new(
+                ScalarBuffer::from(v.iter().map(|f| f.0).collect::<Vec<f64>>()),
+                nulls,
+            )),
+            Phys::Utf8(v) => {
+                let offsets = OffsetBuffer::<i32>::from_lengths(v.iter().map(|s| s.len()));
+                let mut bytes = Vec::new();
+                for s in v {
+                    bytes.extend_from_slice(s.as_bytes());
+                }
+                Arc::new(StringArray::new(offsets, arrow::buffer::Buffer::from_vec(bytes), nulls))
+            }
+            Phys::Bool(v) => Arc::new(BooleanArray::new(BooleanBuffer::from(v.clone()), nulls)),
+        };
+        full.slice(self.off, self.len)
+    }
+    fn shape_labels(&self, obs: &mut Obs, prefix: &str) {
+        obs.label(format!("{}type:{:?}", prefix, self.ty()));
+        let n = self.len;
+        obs.label(format!(
+            "{}len:{}",
+            prefix,
+            match n {
+                0 => "0",
+                1 => "1",
+                2..=6 => "2-6",
+                7..=80 => "7-80",
+                _ => ">80",
+            }
+        ));
+        let nc = self.null_count();
+        if nc > 0 {
+            obs.label(format!("{}has-nulls", prefix));
+            if nc == n {
+                obs.label(format!("{}all-null", prefix));
+            }
+        }
+        if self.sliced() {
+            obs.label(format!("{}sliced", prefix));
+        }
+        if n >= 2 && self.phys_constant() {
+            obs.label(format!("{}phys-constant", prefix));
+        }
+        if self.max_run() >= 3 {
+            obs.label(format!("{}run>=3", prefix));
+        }
+    }
+    /// DESIGN's NT: NULLs and a run >= 3, or sliced
+    fn nt(&self) -> bool {
+        self.len > 0 && ((self.null_count() > 0 && self.max_run() >= 3) || self.sliced())
+    }
+}
+
+/// Read any result array of the five types (or a dictionary over Utf8, cast
+/// back to the value type) into logical cells.
+fn read(a: &ArrayRef) -> Result<(DataType, Vec<Option<Cell>>), String> {
+    let a: ArrayRef = match a.data_type() {
+        DataType::Dictionary(_, v) => {
+            arrow::compute::cast(a, v.as_ref()).map_err(|e| format!("cast of dictionary result failed: {}", e))?
+        }
+        _ => a.clone(),
+    };
+    let n = a.len();
+    let mut out = Vec::with_capacity(n);
+    macro_rules! rd {
+        ($t:ty, $f:expr) => {{
+            let x = a.as_any().downcast_ref::<$t>().unwrap();
+            for i in 0..n {
+                out.push(if x.is_null(i) { None } else { Some($f(x, i)) });
+            }
+        }};
+    }
+    match a.data_type() {
+        DataType::Int32 => rd!(Int32Array, |x: &Int32Array, i| Cell::I(x.value(i) as i64)),
+        DataType::Int64 => rd!(Int64Array, |x: &Int64Array, i| Cell::I(x.value(i))),
+        DataType::Float64 => rd!(Float64Array, |x: &Float64Array, i| Cell::F(x.value(i))),
+        DataType::Utf8 => rd!(StringArray, |x: &StringArray, i| Cell::S(x.value(i).to_string())),
+        DataType::Boolean => rd!(BooleanArray, |x: &BooleanArray, i| Cell::B(x.value(i))),
+        other => return Err(format!("result has unexpected data type {:?}", other)),
+    }
+    Ok((a.data_type().clone(), out))
+}
+
+fn show(cells: &[Option<Cell>]) -> String {
+    let mut s = String::from("[");
+    for (i, c) in cells.iter().enumerate() {
+        if i >= 24 {
+            s.push_str(&format!(", … ({} total)", cells.len()));
+            break;
+        }
+        if i > 0 {
+            s.push_str(", ");
+        }
+        match c {
+            None => s.push_str("NULL"),
+            Some(Cell::I(v)) => s.push_str(&v.to_string()),
+            Some(Cell::F(v)) => s.push_str(&format!("{:?}", v)),
+            Some(Cell::S(v)) => s.push_str(&format!("{:?}", v)),
+            Some(Cell::B(v)) => s.push_str(&v.to_string()),
+        }
+    }
+    s.push(']');
+    s
+}
+
+fn cells_eq(a: &[Option<Cell>], b: &[Option<Cell>]) -> bool {
+    a.len() == b.len() && a.iter().zip(b).all(|(x, y)| opt_cell_eq(x, y))
+}
+
+fn catch<T>(f: impl FnOnce() -> T) -> Result<T, String> {
+    std::panic::catch_unwind(std::panic::AssertUnwindSafe(f)).map_err(crate::engine::panic_text)
+}
+
+// ---------------------------------------------------------------------------
+// generators
+// ---------------------------------------------------------------------------
+
+#[derive(Clone, Copy, Debug, PartialEq, Eq)]
+enum Dom {
+    /// any value of the type (extremes, NaN, inf, -0.0)
+    Full,
+    /// |int| <= 2^31, floats finite "nice" + rare specials (for compare / arithmetic)
+    Bounded,
+    /// floats are multiples of 1/8 with |x| <= 2^20 (sums exact in any order); ints |x| <= 2^31
+    Exact,
+}
+
+#[derive(Clone, Debug)]
+enum Atom {
+    I32(i32),
+    I64(i64),
+    F64(f64),
+    S(String),
+    B(bool),
+}
+
+fn atom(ty: Ty, dom: Dom) -> BoxedStrategy<Atom> {
+    match ty {
+        Ty::I32 => prop_oneof![
+            6 => (-3i32..4).prop_map(Atom::I32),
+            1 => prop_oneof![Just(i32::MAX), Just(i32::MIN), Just(1 << 20)].prop_map(Atom::I32),
+            1 => any::<i32>().prop_map(Atom::I32),
+        ]
+        .boxed(),
+        Ty::I64 => match dom {
+            Dom::Full => prop_oneof![
+                6 => (-3i64..4).prop_map(Atom::I64),
+                1 => prop_oneof![Just(i64::MAX), Just(i64::MIN), Just(1i64 << 40)].prop_map(Atom::I64),
+                1 => any::<i64>().prop_map(Atom::I64),
+            ]
+            .boxed(),
+            _ => prop_oneof![
+                6 => (-3i64..4).prop_map(Atom::I64),
+                1 => prop_oneof![Just(1i64 << 31), Just(-(1i64 << 31)), Just(46341i64)].prop_map(Atom::I64),
+                1 => (-(1i64 << 31)..(1i64 << 31)).prop_map(Atom::I64),
+            ]
+            .boxed(),
+        },
+        Ty::F64 => match dom {
+            Dom::Exact => prop_oneof![
+                6 => (-24i32..25).prop_map(|k| Atom::F64(k as f64 / 8.0)),
+                2 => (-(1i32 << 23)..(1i32 << 23)).prop_map(|k| Atom::F64(k as f64 / 8.0)),
+            ]
+            .boxed(),
+            Dom::Bounded => prop_oneof![
+                12 => (-24i32..25).prop_map(|k| Atom::F64(k as f64 / 8.0)),
+                3 => (-1.0e6f64..1.0e6).prop_map(Atom::F64),
+                1 => prop_oneof![Just(f64::INFINITY), Just(f64::NEG_INFINITY), Just(f64::MAX), Just(f64::MIN_POSITIVE)]
+                    .prop_map(Atom::F64),
+                // NaN and -0.0 are where IEEE and Arrow's total order disagree (open finding): keep them rare
+                1 => prop_oneof![Just(f64::NAN), Just(-0.0f64)].prop_map(Atom::F64),
+            ]
+            .boxed(),
+            Dom::Full => prop_oneof![
+                8 => (-24i32..25).prop_map(|k| Atom::F64(k as f64 / 8.0)),
+                2 => any::<f64>().prop_map(Atom::F64),
+                2 => prop_oneof![
+                    Just(f64::NAN),
+                    Just(-0.0f64),
+                    Just(f64::INFINITY),
+                    Just(f64::NEG_INFINITY),
+                    Just(f64::MAX),
+                    Just(f64::MIN_POSITIVE)
+                ]
+                .prop_map(Atom::F64),
+            ]
+            .boxed(),
+        },
+        Ty::Utf8 => prop_oneof![
+            3 => Just(Atom::S(String::new())),
+            8 => "[ab]{1,2}".prop_map(Atom::S),
+            2 => Just(Atom::S("NULL".to_string())),
+            2 => "[a-zé✓ ,\"]{0,6}".prop_map(Atom::S),
+            1 => (20usize..60).prop_map(|n| Atom::S("x".repeat(n))),
+        ]
+        .boxed(),
+        Ty::Bool => any::<bool>().prop_map(Atom::B).boxed(),
+    }
+}
+
+fn default_atom(ty: Ty) -> Atom {
+    match ty {
+        Ty::I32 => Atom::I32(0),
+        Ty::I64 => Atom::I64(0),
+        Ty::F64 => Atom::F64(0.0),
+        Ty::Utf8 => Atom::S(String::new()),
+        Ty::Bool => Atom::B(false),
+    }
+}
+
+fn to_phys(ty: Ty, atoms: Vec<Atom>) -> Phys {
+    match ty {
+        Ty::I32 => Phys::I32(atoms.into_iter().map(|a| if let Atom::I32(v) = a { v } else { 0 }).collect()),
+        Ty::I64 => Phys::I64(atoms.into_iter().map(|a| if let Atom::I64(v) = a { v } else { 0 }).collect()),
+        Ty::F64 => Phys::F64(atoms.into_iter().map(|a| if let Atom::F64(v) = a { Fl(v) } else { Fl(0.0) }).collect()),
+        Ty::Utf8 => {
+            Phys::Utf8(atoms.into_iter().map(|a| if let Atom::S(v) = a { v } else { String::new() }).collect())
+        }
+        Ty::Bool => Phys::Bool(atoms.into_iter().map(|a| if let Atom::B(v) = a { v } else { false }).collect()),
+    }
+}
+
+/// validity pattern over n physical slots
+#[derive(Clone, Debug)]
+enum Validity {
+    AllValid,
+    /// each slot NULL with probability pct (bits drawn by the strategy)
+    Random(Vec<bool>),
+    /// alternating runs, lengths given, starting with `first_valid`
+    Runs(bool, Vec<u8>),
+    AllNull,
+    /// exactly one NULL at the picked position
+    Single(u16),
+}
+
+fn validity(n: usize) -> BoxedStrategy<Validity> {
+    let m = n.max(1);
+    prop_oneof![
+        5 => Just(Validity::AllValid),
+        4 => (prop_oneof![Just(10u32), Just(30), Just(60)], proptest::collection::vec(0u32..100, m))
+            .prop_map(|(pct, v)| Validity::Random(v.into_iter().map(|x| x >= pct).collect())),
+        3 => (any::<bool>(), proptest::collection::vec(1u8..9, 1..12)).prop_map(|(f, r)| Validity::Runs(f, r)),
+        1 => Just(Validity::AllNull),
+        3 => any::<u16>().prop_map(Validity::Single),
+    ]
+    .boxed()
+}
+
+fn expand_validity(v: &Validity, n: usize) -> Vec<bool> {
+    match v {
+        Validity::AllValid => vec![true; n],
+        Validity::Random(b) => (0..n).map(|i| b[i % b.len()]).collect(),
+        Validity::Runs(first, runs) => {
+            let mut out = Vec::with_capacity(n);
+            let mut cur = *first;
+            let mut k = 0;
+            while out.len() < n {
+                let r = runs[k % runs.len()] as usize;
+                for _ in 0..r {
+                    if out.len() < n {
+                        out.push(cur);
+                    }
+                }
+                cur = !cur;
+                k += 1;
+            }
+            out
+        }
+        Validity::AllNull => vec![false; n],
+        Validity::Single(sel) => {
+            let mut out = vec![true; n];
+            if n > 0 {
+                out[crate::data::pick_idx(*sel, n)] = false;
+            }
+            out
+        }
+    }
+}
+
+/// An array of logical length `n` of type `ty`.
+fn arr_of_len(ty: Ty, dom: Dom, n: usize) -> BoxedStrategy<Arr> {
+    // hidden lead/trail slots outside the window
+    let pad = prop_oneof![
+        5 => Just((0usize, 0usize)),
+        5 => (0usize..4, 0usize..4),
+        1 => (0usize..70, 0usize..70), // offsets beyond one bitmap word
+    ];
+    pad.prop_flat_map(move |(lead, trail)| {
+        let total = lead + n + trail;
+        (
+            // domain size: 1 (constant) is kept to ~1/6 of the cases
+            prop_oneof![1 => 1usize..2, 5 => 2usize..6].prop_flat_map(move |k| proptest::collection::vec(atom(ty, dom), k)),
+            // runs over the atom domain: (atom index, run length)
+            proptest::collection::vec(
+                (0u8..5, prop_oneof![6 => 1u16..2, 3 => 2u16..5, 2 => 5u16..40, 1 => 40u16..400]),
+                1..10,
+            ),
+            validity(total),
+            // hidden values under NULL: keep the run's value / zero-default
+            any::<bool>(),
+            Just((lead, trail)),
+        )
+    })
+    .prop_map(move |(domv, runs, val, hidden_default, (lead, trail))| {
+        let total = lead + n + trail;
+        let valid = expand_validity(&val, total);
+        let mut atoms: Vec<Atom> = Vec::with_capacity(total);
+        let mut k = 0;
+        while atoms.len() < total {
+            let (ai, rl) = runs[k % runs.len()];
+            let a = domv[(ai as usize) % domv.len()].clone();
+            for _ in 0..rl {
+                if atoms.len() < total {
+                    atoms.push(a.clone());
+                }
+            }
+            k += 1;
+        }
+        if hidden_default {
+            for i in 0..total {
+                if !valid[i] {
+                    atoms[i] = default_atom(ty);
+                }
+            }
+        }
+        Arr { phys: to_phys(ty, atoms), valid, off: lead, len: n }
+    })
+    .boxed()
+}
+
+fn len_strategy(tier: Tier) -> BoxedStrategy<usize> {
+    match tier {
+        Tier::Quick => prop_oneof![2 => 0usize..3, 5 => 3usize..13, 4 => 13usize..81, 1 => 200usize..1200].boxed(),
+        Tier::Thorough => {
+            prop_oneof![2 => 0usize..3, 5 => 3usize..13, 4 => 13usize..81, 2 => 200usize..1200, 1 => 1200usize..5001]
+                .boxed()
+        }
+    }
+}
+
+fn arr(ty: BoxedStrategy<Ty>, dom: Dom, tier: Tier) -> BoxedStrategy<Arr> {
+    (ty, len_strategy(tier)).prop_flat_map(move |(t, n)| arr_of_len(t, dom, n)).boxed()
+}
+
+// ---------------------------------------------------------------------------
+// check 1: encode_optimal / decode round trip
+// ---------------------------------------------------------------------------
+
+#[derive(Clone, Debug, Serialize, Deserialize)]
+pub struct EncodeCase {
+    pub a: Arr,
+}
+
+pub struct EncodeRoundTrip;
+impl Check for EncodeRoundTrip {
+    type Case = EncodeCase;
+    fn name(&self) -> &'static str {
+        "encode_roundtrip"
+    }
+    fn rule(&self) -> &'static str {
+        "non-empty array that (has NULLs and a run of >=3 equal cells) or is a proper slice of its buffers"
+    }
+    fn cases(&self, tier: Tier) -> u32 {
+        tier.pick(6000, 400_000)
+    }
+    fn strategy(&self, tier: Tier) -> BoxedStrategy<EncodeCase> {
+        // Int32 is mostly blocked by an open finding (see below): keep its share small
+        let ty = prop_oneof![
+            1 => Just(Ty::I32),
+            4 => Just(Ty::I64),
+            3 => Just(Ty::F64),
+            4 => Just(Ty::Utf8),
+            2 => Just(Ty::Bool),
+        ]
+        .boxed();
+        arr(ty, Dom::Full, tier).prop_map(|a| EncodeCase { a }).boxed()
+    }
+    fn test(&self, c: &EncodeCase, obs: &mut Obs) -> Verdict {
+        let a = &c.a;
+        if !a.well_formed() {
+            return Verdict::Discard("malformed case".into());
+        }
+        a.shape_labels(obs, "");
+        let input = a.build();
+        let want = a.logical();
+        let n = a.len;
+        let outcome = catch(|| encode_optimal(input.clone()).map(|e| (e.encoding(), e.decode())));
+        // (signature helper) constant-path facts about the input
+        let first_null = n > 0 && !a.is_valid(0);
+        let (enc, dec) = match outcome {
+            Err(panic) => {
+                obs.label("outcome:panic");
+                let sig = matches!(a.ty(), Ty::Bool | Ty::I32)
+                    && n == 1
+                    && panic.contains("Unsupported data type for constant array");
+                if sig {
+                    return Verdict::Known {
+                        id: "c37-encode-unsupported-type-fails".into(),
+                        msg: format!("encode_optimal({}) panicked: {}", show(&want), panic),
+                    };
+                }
+                return Verdict::Fail(format!(
+                    "encode_optimal panicked on {:?} array {}: {}",
+                    a.ty(),
+                    show(&want),
+                    panic
+                ));
+            }
+            Ok(Err(e)) => {
+                obs.label("outcome:err");
+                let e = e.to_string();
+                let sig = a.ty() == Ty::I32
+                    && (n == 1 || n >= 7)
+                    && e.contains("Unsupported array type for scalar extraction");
+                if sig {
+                    return Verdict::Known {
+                        id: "c37-encode-unsupported-type-fails".into(),
+                        msg: format!("encode_optimal(Int32 {}) = Err({})", show(&want), e),
+                    };
+                }
+                return Verdict::Fail(format!(
+                    "encode_optimal refused a {:?} array {} (no round trip): {}",
+                    a.ty(),
+                    show(&want),
+                    e
+                ));
+            }
+            Ok(Ok(x)) => x,
+        };
+        obs.label(format!("encoding:{:?}", enc));
+        obs.nontrivial(a.nt());
+        let (dt, got) = match read(&dec) {
+            Ok(x) => x,
+            Err(e) => return Verdict::Fail(format!("decode of {:?}: {}", enc, e)),
+        };
+        if dt == a.ty().arrow() && cells_eq(&got, &want) {
+            return Verdict::Pass;
+        }
+        let msg = format!(
+            "encode_optimal(a).decode() != a  (encoding {:?}, type {:?} -> {:?})\n  a       = {}\n  decoded = {}",
+            enc,
+            a.ty(),
+            dt,
+            show(&want),
+            show(&got)
+        );
+        // --- signatures of open findings -----------------------------------
+        let all_valid_out = got.iter().all(|c| c.is_some());
+        if dt == a.ty().arrow() && got.len() == n && all_valid_out && a.null_count() > 0 {
+            let dflt = match a.ty() {
+                Ty::I32 | Ty::I64 => Cell::I(0),
+                Ty::F64 => Cell::F(0.0),
+                Ty::Utf8 => Cell::S(String::new()),
+                Ty::Bool => Cell::B(false),
+            };
+            // (1) is_constant looks at the values buffer only: Int64, >=2 slots,
+            //     every physical value equal, some slot NULL. The NULLs come back
+            //     as the constant (or as 0 when slot 0 is the NULL one).
+            if a.ty() == Ty::I64 && n >= 2 && a.phys_constant() {
+                let fill = if first_null { dflt.clone() } else { a.phys_cell(0) };
+                if got.iter().all(|c| cell_eq(c.as_ref().unwrap(), &fill)) {
+                    return Verdict::Known { id: "c37-constant-ignores-validity".into(), msg };
+                }
+            }
+            // (2) a legitimately constant array whose constant is NULL (one NULL
+            //     slot, or an all-NULL Utf8 array) decodes to the type's default.
+            let legit_null_const = (n == 1 && first_null && a.ty() != Ty::I32 && a.ty() != Ty::Bool)
+                || (a.ty() == Ty::Utf8 && a.null_count() == n);
+            if legit_null_const && got.iter().all(|c| cell_eq(c.as_ref().unwrap(), &dflt)) {
+                return Verdict::Known { id: "c37-null-constant-becomes-default".into(), msg };
+            }
+        }
+        Verdict::Fail(msg)
+    }
+}
+
+// ---------------------------------------------------------------------------
+// check 2: filter_simd vs arrow::compute::filter
+// ---------------------------------------------------------------------------
+
+fn is_unsupported(e: &str) -> bool {
+    e.contains("Unsupported data type") || e.contains("Unsupported type")
+}
+
+#[derive(Clone, Debug, Serialize, Deserialize)]
+pub struct FilterCase {
+    pub a: Arr,
+    pub pred: Vec<bool>,
+}
+
+pub struct FilterSimd;
+impl Check for FilterSimd {
+    type Case = FilterCase;
+    fn name(&self) -> &'static str {
+        "filter_simd"
+    }
+    fn rule(&self) -> &'static str {
+        "supported type, predicate selects >=1 and rejects >=1 row, and the array (has NULLs and a run >=3) or is sliced"
+    }
+    fn cases(&self, tier: Tier) -> u32 {
+        tier.pick(4000, 300_000)
+    }
+    fn strategy(&self, tier: Tier) -> BoxedStrategy<FilterCase> {
+        let ty = prop_oneof![
+            5 => Just(Ty::I64),
+            5 => Just(Ty::F64),
+            4 => Just(Ty::Bool),
+            1 => Just(Ty::I32),
+            1 => Just(Ty::Utf8),
+        ]
+        .boxed();
+        arr(ty, Dom::Full, tier)
+            .prop_flat_map(|a| {
+                let n = a.len.max(1);
+                (
+                    Just(a),
+                    prop_oneof![
+                        6 => (prop_oneof![Just(20u32), Just(50), Just(90)], proptest::collection::vec(0u32..100, n))
+                            .prop_map(|(p, v)| v.into_iter().map(|x| x < p).collect::<Vec<bool>>()),
+                        1 => Just(vec![true; n]),
+                        1 => Just(vec![false; n]),
+                    ],
+                )
+            })
+            .prop_map(|(a, mut pred)| {
+                pred.truncate(a.len);
+                FilterCase { a, pred }
+            })
+            .boxed()
+    }
+    fn test(&self, c: &FilterCase, obs: &mut Obs) -> Verdict {
+        let a = &c.a;
+        if !a.well_formed() || c.pred.len() != a.len {
+            return Verdict::Discard("malformed case".into());
+        }
+        a.shape_labels(obs, "");
+        let input = a.build();
+        let expected = match arrow::compute::filter(&input, &BooleanArray::from(c.pred.clone())) {
+            Ok(x) => x,
+            Err(e) => return Verdict::Discard(format!("arrow filter refused: {}", e)),
+        };
+        let (edt, want) = read(&expected).expect("arrow result readable");
+        let got = match catch(|| filter_simd(input.as_ref(), &c.pred)) {
+            Err(p) => return Verdict::Fail(format!("filter_simd panicked: {}", p)),
+            Ok(Err(e)) => {
+                let e = e.to_string();
+                if matches!(a.ty(), Ty::I32 | Ty::Utf8) && is_unsupported(&e) {
+                    obs.label("outcome:unsupported-type-refused");
+                    return Verdict::Pass;
+                }
+                return Verdict::Fail(format!(
+                    "filter_simd = Err({}) where arrow::compute::filter returns {}",
+                    e,
+                    show(&want)
+                ));
+            }
+            Ok(Ok(x)) => x,
+        };
+        let sel = c.pred.iter().filter(|p| **p).count();
+        obs.nontrivial(sel > 0 && sel < a.len && a.nt());
+        let (dt, gotc) = match read(&got) {
+            Ok(x) => x,
+            Err(e) => return Verdict::Fail(e),
+        };
+        if dt == edt && cells_eq(&gotc, &want) {
+            return Verdict::Pass;
+        }
+        let msg = format!(
+            "filter_simd != arrow::compute::filter\n  array = {}\n  pred  = {:?}\n  arrow = {}\n  simd  = {}",
+            show(&a.logical()),
+            &c.pred[..c.pred.len().min(24)],
+            show(&want),
+            show(&gotc)
+        );
+        // open finding: selected NULL rows are dropped (everything else right)
+        let want_nonnull: Vec<Option<Cell>> = want.iter().filter(|c| c.is_some()).cloned().collect();
+        if dt == edt && want_nonnull.len() < want.len() && cells_eq(&gotc, &want_nonnull) {
+            obs.label("known:selected-null-dropped");
+            return Verdict::Known { id: "c37-filter-drops-nulls".into(), msg };
+        }
+        Verdict::Fail(msg)
+    }
+}
+
+// ---------------------------------------------------------------------------
+// check 3: compare_simd vs arrow cmp kernels
+// ---------------------------------------------------------------------------
+
+#[derive(Clone, Copy, Debug, Serialize, Deserialize)]
+pub enum Op {
+    Eq,
+    Ne,
+    Lt,
+    Le,
+    Gt,
+    Ge,
+}
+
+#[derive(Clone, Debug, Serialize, Deserialize)]
+pub struct PairCase {
+    pub l: Arr,
+    pub r: Arr,
+    pub op: Op,
+}
+
+fn pair(ty: BoxedStrategy<Ty>, dom: Dom, tier: Tier, mismatch_weight: u32) -> BoxedStrategy<(Arr, Arr)> {
+    // `all_valid`: half of the pairs have no NULL at all, so that most cases stay
+    // clear of the open "validity ignored" findings and exercise values/slicing only
+    (ty, len_strategy(tier), prop_oneof![40 => Just(0usize), mismatch_weight => 1usize..4], any::<bool>(), any::<bool>())
+        .prop_flat_map(move |(t, n, extra, left_longer, all_valid)| {
+            let (nl, nr) = if left_longer { (n + extra, n) } else { (n, n + extra) };
+            (arr_of_len(t, dom, nl), arr_of_len(t, dom, nr), Just(all_valid))
+        })
+        .prop_map(|(mut l, mut r, all_valid)| {
+            if all_valid {
+                l.valid.iter_mut().for_each(|v| *v = true);
+                r.valid.iter_mut().for_each(|v| *v = true);
+            }
+            (l, r)
+        })
+        .boxed()
+}
+
+fn ieee(op: Op, x: f64, y: f64) -> bool {
+    match op {
+        Op::Eq => x == y,
+        Op::Ne => !(x == y),
+        Op::Lt => x < y,
+        Op::Le => x < y || x == y,
+        Op::Gt => y < x,
+        Op::Ge => y < x || y == x,
+    }
+}
+
+pub struct CompareSimd;
+impl Check for CompareSimd {
+    type Case = PairCase;
+    fn name(&self) -> &'static str {
+        "compare_simd"
+    }
+    fn rule(&self) -> &'static str {
+        "Int64/Float64 operands of equal length >=1 where an operand (has NULLs and a run >=3) or is sliced"
+    }
+    fn cases(&self, tier: Tier) -> u32 {
+        tier.pick(5000, 300_000)
+    }
+    fn strategy(&self, tier: Tier) -> BoxedStrategy<PairCase> {
+        let ty = prop_oneof![
+            8 => Just(Ty::I64),
+            8 => Just(Ty::F64),
+            1 => Just(Ty::I32),
+            1 => Just(Ty::Utf8),
+            1 => Just(Ty::Bool),
+        ]
+        .boxed();
+        (
+            pair(ty, Dom::Bounded, tier, 1),
+            prop_oneof![Just(Op::Eq), Just(Op::Ne), Just(Op::Lt), Just(Op::Le), Just(Op::Gt), Just(Op::Ge)],
+        )
+            .prop_map(|((l, r), op)| PairCase { l, r, op })
+            .boxed()
+    }
+    fn test(&self, c: &PairCase, obs: &mut Obs) -> Verdict {
+        use arrow::compute::kernels::cmp;
+        if !c.l.well_formed() || !c.r.well_formed() || c.l.ty() != c.r.ty() {
+            return Verdict::Discard("malformed case".into());
+        }
+        c.l.shape_labels(obs, "l.");
+        obs.label(format!("op:{:?}", c.op));
+        let (l, r) = (c.l.build(), c.r.build());
+        let expected = match c.op {
+            Op::Eq => cmp::eq(&l, &r),
+            Op::Ne => cmp::neq(&l, &r),
+            Op::Lt => cmp::lt(&l, &r),
+            Op::Le => cmp::lt_eq(&l, &r),
+            Op::Gt => cmp::gt(&l, &r),
+            Op::Ge => cmp::gt_eq(&l, &r),
+        };
+        let sop = match c.op {
+            Op::Eq => CompareOp::Eq,
+            Op::Ne => CompareOp::Ne,
+            Op::Lt => CompareOp::Lt,
+            Op::Le => CompareOp::Le,
+            Op::Gt => CompareOp::Gt,
+            Op::Ge => CompareOp::Ge,
+        };
+        let got = catch(|| compare_simd(l.as_ref(), r.as_ref(), sop));
+        let got = match got {
+            Err(p) => return Verdict::Fail(format!("compare_simd panicked: {}", p)),
+            Ok(x) => x,
+        };
+        let expected = match expected {
+            Err(e) => {
+                // Arrow refuses (length mismatch): the helper must refuse too
+                obs.label("arrow-refuses");
+                return match got {
+                    Err(_) => Verdict::Pass,
+                    Ok(g) => Verdict::Fail(format!(
+                        "compare_simd returned {} rows where the Arrow kernel refuses ({}); lengths {} vs {}",
+                        g.len(),
+                        e,
+                        c.l.len,
+                        c.r.len
+                    )),
+                };
+            }
+            Ok(x) => x,
+        };
+        let want = read(&(Arc::new(expected) as ArrayRef)).unwrap().1;
+        let got = match got {
+            Err(e) => {
+                let e = e.to_string();
+                if !matches!(c.l.ty(), Ty::I64 | Ty::F64) && is_unsupported(&e) {
+                    obs.label("outcome:unsupported-type-refused");
+                    return Verdict::Pass;
+                }
+                return Verdict::Fail(format!("compare_simd = Err({}) where Arrow returns {}", e, show(&want)));
+            }
+            Ok(g) => g,
+        };
+        obs.nontrivial(c.l.len > 0 && (c.l.nt() || c.r.nt()));
+        let gotc = read(&(Arc::new(got) as ArrayRef)).unwrap().1;
+        if cells_eq(&gotc, &want) {
+            return Verdict::Pass;
+        }
+        let msg = format!(
+            "compare_simd({:?}) != arrow cmp kernel\n  left  = {}\n  right = {}\n  arrow = {}\n  simd  = {}",
+            c.op,
+            show(&c.l.logical()),
+            show(&c.r.logical()),
+            show(&want),
+            show(&gotc)
+        );
+        if gotc.len() != want.len() {
+            return Verdict::Fail(msg);
+        }
+        // Search behind the open findings: classify every differing position.
+        let mut validity_diff = 0usize;
+        let mut ieee_diff = 0usize;
+        for i in 0..want.len() {
+            if opt_cell_eq(&gotc[i], &want[i]) {
+                continue;
+            }
+            match (&want[i], &gotc[i]) {
+                // Arrow says NULL (an operand is NULL), the helper says a boolean
+                (None, Some(_)) if !c.l.is_valid(i) || !c.r.is_valid(i) => validity_diff += 1,
+                // both operands valid floats; Arrow compares in total order, the
+                // helper with IEEE operators: differ only on NaN and on -0.0 vs 0.0
+                (Some(Cell::B(_)), Some(Cell::B(g))) if c.l.ty() == Ty::F64 => {
+                    let (x, y) = match (c.l.phys_cell(i), c.r.phys_cell(i)) {
+                        (Cell::F(x), Cell::F(y)) => (x, y),
+                        _ => unreachable!(),
+                    };
+                    let special = x.is_nan() || y.is_nan() || (x == 0.0 && y == 0.0 && x.to_bits() != y.to_bits());
+                    if special && *g == ieee(c.op, x, y) {
+                        ieee_diff += 1;
+                    } else {
+                        return Verdict::Fail(msg);
+                    }
+                }
+                _ => return Verdict::Fail(msg),
+            }
+        }
+        if validity_diff > 0 {
+            obs.label("known:validity-ignored");
+            return Verdict::Known { id: "c37-compare-ignores-validity".into(), msg };
+        }
+        if ieee_diff > 0 {
+            obs.label("known:ieee-vs-total-order");
+            return Verdict::Known { id: "c37-compare-float-ieee-not-total-order".into(), msg };
+        }
+        Verdict::Fail(msg)
+    }
+}
+
+// ---------------------------------------------------------------------------
+// check 4: add_simd / multiply_simd vs arrow numeric kernels
+// ---------------------------------------------------------------------------
+
+#[derive(Clone, Debug, Serialize, Deserialize)]
+pub struct ArithCase {
+    pub l: Arr,
+    pub r: Arr,
+    pub mul: bool,
+}
+
+pub struct ArithSimd;
+impl Check for ArithSimd {
+    type Case = ArithCase;
+    fn name(&self) -> &'static str {
+        "arith_simd"
+    }
+    fn rule(&self) -> &'static str {
+        "Int64/Float64 operands of equal length >=1 where an operand (has NULLs and a run >=3) or is sliced"
+    }
+    fn cases(&self, tier: Tier) -> u32 {
+        tier.pick(5000, 300_000)
+    }
+    fn strategy(&self, tier: Tier) -> BoxedStrategy<ArithCase> {
+        let ty = prop_oneof![
+            8 => Just(Ty::I64),
+            8 => Just(Ty::F64),
+            1 => Just(Ty::I32),
+            1 => Just(Ty::Utf8),
+        ]
+        .boxed();
+        (pair(ty, Dom::Bounded, tier, 2), any::<bool>()).prop_map(|((l, r), mul)| ArithCase { l, r, mul }).boxed()
+    }
+    fn test(&self, c: &ArithCase, obs: &mut Obs) -> Verdict {
+        use arrow::compute::kernels::numeric;
+        if !c.l.well_formed() || !c.r.well_formed() || c.l.ty() != c.r.ty() {
+            return Verdict::Discard("malformed case".into());
+        }
+        // the generator's bound (no integer overflow in play) — also for replayed cases
+        for a in [&c.l, &c.r] {
+            if let Phys::I64(v) = &a.phys {
+                if v.iter().any(|x| x.unsigned_abs() > 1 << 31) {
+                    return Verdict::Discard("integer operand outside the no-overflow bound".into());
+                }
+            }
+        }
+        c.l.shape_labels(obs, "l.");
+        obs.label(if c.mul { "op:mul" } else { "op:add" });
+        let (l, r) = (c.l.build(), c.r.build());
+        let numeric_ty = matches!(c.l.ty(), Ty::I64 | Ty::F64 | Ty::I32);
+        let expected = if !numeric_ty {
+            Err("not numeric".to_string())
+        } else if c.mul {
+            numeric::mul_wrapping(&l, &r).map_err(|e| e.to_string())
+        } else {
+            numeric::add_wrapping(&l, &r).map_err(|e| e.to_string())
+        };
+        let got = catch(|| if c.mul { multiply_simd(l.as_ref(), r.as_ref()) } else { add_simd(l.as_ref(), r.as_ref()) });
+        let fname = if c.mul { "multiply_simd" } else { "add_simd" };
+        let expected = match expected {
+            Err(e) => {
+                obs.label("arrow-refuses");
+                let mismatch = c.l.len != c.r.len && matches!(c.l.ty(), Ty::I64 | Ty::F64);
+                return match got {
+                    Ok(Err(_)) => Verdict::Pass,
+                    // open finding: operand lengths are never compared — a longer
+                    // left operand indexes past the right one (panic), a shorter one
+                    // silently truncates
+                    Err(p) if mismatch && c.l.len > c.r.len => Verdict::Known {
+                        id: "c37-arith-length-unchecked".into(),
+                        msg: format!("{} with lengths {} vs {} panicked: {}", fname, c.l.len, c.r.len, p),
+                    },
+                    Ok(Ok(g)) if mismatch && c.l.len < c.r.len && g.len() == c.l.len => Verdict::Known {
+                        id: "c37-arith-length-unchecked".into(),
+                        msg: format!(
+                            "{} with lengths {} vs {} returned {} rows; the Arrow kernel refuses ({})",
+                            fname,
+                            c.l.len,
+                            c.r.len,
+                            g.len(),
+                            e
+                        ),
+                    },
+                    Err(p) => Verdict::Fail(format!("{} panicked: {}", fname, p)),
+                    Ok(Ok(g)) => Verdict::Fail(format!(
+                        "{} returned {} rows where the Arrow kernel refuses ({})",
+                        fname,
+                        g.len(),
+                        e
+                    )),
+                };
+            }
+            Ok(x) => x,
+        };
+        let (edt, want) = read(&expected).unwrap();
+        let got = match got {
+            Err(p) => return Verdict::Fail(format!("{} panicked: {}", fname, p)),
+            Ok(Err(e)) => {
+                let e = e.to_string();
+                if !matches!(c.l.ty(), Ty::I64 | Ty::F64) && is_unsupported(&e) {
+                    obs.label("outcome:unsupported-type-refused");
+                    return Verdict::Pass;
+                }
+                return Verdict::Fail(format!("{} = Err({}) where Arrow returns {}", fname, e, show(&want)));
+            }
+            Ok(Ok(g)) => g,
+        };
+        obs.nontrivial(c.l.len > 0 && (c.l.nt() || c.r.nt()));
+        let (dt, gotc) = match read(&got) {
+            Ok(x) => x,
+            Err(e) => return Verdict::Fail(e),
+        };
+        if dt == edt && cells_eq(&gotc, &want) {
+            return Verdict::Pass;
+        }
+        let msg = format!(
+            "{} != arrow numeric kernel\n  left  = {}\n  right = {}\n  arrow = {}\n  simd  = {}",
+            fname,
+            show(&c.l.logical()),
+            show(&c.r.logical()),
+            show(&want),
+            show(&gotc)
+        );
+        if dt != edt || gotc.len() != want.len() {
+            return Verdict::Fail(msg);
+        }
+        // behind the open finding: every position where Arrow is valid must agree;
+        // the only tolerated difference is a non-NULL where an operand is NULL
+        let mut validity_diff = 0;
+        for i in 0..want.len() {
+            if opt_cell_eq(&gotc[i], &want[i]) {
+                continue;
+            }
+            match (&want[i], &gotc[i]) {
+                (None, Some(_)) if !c.l.is_valid(i) || !c.r.is_valid(i) => validity_diff += 1,
+                _ => return Verdict::Fail(msg),
+            }
+        }
+        if validity_diff > 0 {
+            obs.label("known:validity-ignored");
+            return Verdict::Known { id: "c37-arith-ignores-validity".into(), msg };
+        }
+        Verdict::Fail(msg)
+    }
+}
+
+// ---------------------------------------------------------------------------
+// check 5: sum_simd / count_simd vs arrow aggregate kernels
+// ---------------------------------------------------------------------------
+
+#[derive(Clone, Debug, Serialize, Deserialize)]
+pub struct AggCase {
+    pub a: Arr,
+}
+
+pub struct AggSimd;
+impl Check for AggSimd {
+    type Case = AggCase;
+    fn name(&self) -> &'static str {
+        "agg_simd"
+    }
+    fn rule(&self) -> &'static str {
+        "non-empty array that (has NULLs and a run >=3) or is sliced"
+    }
+    fn cases(&self, tier: Tier) -> u32 {
+        tier.pick(5000, 300_000)
+    }
+    fn strategy(&self, tier: Tier) -> BoxedStrategy<AggCase> {
+        let ty = prop_oneof![
+            8 => Just(Ty::I64),
+            8 => Just(Ty::F64),
+            1 => Just(Ty::I32),
+            1 => Just(Ty::Utf8),
+            1 => Just(Ty::Bool),
+        ]
+        .boxed();
+        arr(ty, Dom::Exact, tier).prop_map(|a| AggCase { a }).boxed()
+    }
+    fn test(&self, c: &AggCase, obs: &mut Obs) -> Verdict {
+        let a = &c.a;
+        if !a.well_formed() {
+            return Verdict::Discard("malformed case".into());
+        }
+        match &a.phys {
+            Phys::I64(v) if v.iter().any(|x| x.unsigned_abs() > 1 << 31) => {
+                return Verdict::Discard("integer outside the no-overflow bound".into())
+            }
+            Phys::F64(v) if v.iter().any(|x| !(x.0.abs() <= 1048576.0 && (x.0 * 8.0).fract() == 0.0)) => {
+                return Verdict::Discard("float addend not exactly summable".into())
+            }
+            _ => {}
+        }
+        a.shape_labels(obs, "");
+        let input = a.build();
+        // count: every type
+        let want_count = (a.len - a.null_count()) as i64;
+        if want_count != (input.len() - input.null_count()) as i64 {
+            return Verdict::Fail("harness: built array disagrees with the case about its NULL count".into());
+        }
+        match catch(|| count_simd(input.as_ref())) {
+            Err(p) => return Verdict::Fail(format!("count_simd panicked: {}", p)),
+            Ok(Err(e)) => return Verdict::Fail(format!("count_simd = Err({})", e)),
+            Ok(Ok(n)) => {
+                if n != want_count {
+                    return Verdict::Fail(format!(
+                        "count_simd = {} but len - null_count = {} for {}",
+                        n,
+                        want_count,
+                        show(&a.logical())
+                    ));
+                }
+            }
+        }
+        obs.nontrivial(a.nt());
+        // sum
+        let want: Option<Cell> = match a.ty() {
+            Ty::I64 => arrow::compute::sum(input.as_any().downcast_ref::<Int64Array>().unwrap()).map(Cell::I),
+            Ty::F64 => arrow::compute::sum(input.as_any().downcast_ref::<Float64Array>().unwrap()).map(Cell::F),
+            _ => {
+                return match catch(|| sum_simd(input.as_ref())) {
+                    Ok(Err(e)) if is_unsupported(&e.to_string()) => {
+                        obs.label("outcome:unsupported-type-refused");
+                        Verdict::Pass
+                    }
+                    Ok(Err(e)) => Verdict::Fail(format!("sum_simd = Err({})", e)),
+                    Err(p) => Verdict::Fail(format!("sum_simd panicked: {}", p)),
+                    Ok(Ok(v)) => Verdict::Fail(format!("sum_simd of a {:?} array returned {:?}", a.ty(), v)),
+                }
+            }
+        };
+        let got = match catch(|| sum_simd(input.as_ref())) {
+            Err(p) => return Verdict::Fail(format!("sum_simd panicked: {}", p)),
+            Ok(Err(e)) => return Verdict::Fail(format!("sum_simd = Err({}) where arrow sum = {:?}", e, want)),
+            Ok(Ok(v)) => v,
+        };
+        let gotc: Option<Cell> = match (&got, a.ty()) {
+            (CodecScalarValue::Null, _) => None,
+            (CodecScalarValue::Int64(v), Ty::I64) => v.map(Cell::I),
+            (CodecScalarValue::Float64(v), Ty::F64) => v.map(Cell::F),
+            _ => return Verdict::Fail(format!("sum_simd of {:?} returned {:?}", a.ty(), got)),
+        };
+        let same = match (&gotc, &want) {
+            (None, None) => true,
+            (Some(Cell::I(x)), Some(Cell::I(y))) => x == y,
+            (Some(Cell::F(x)), Some(Cell::F(y))) => x == y || (x.is_nan() && y.is_nan()),
+            _ => false,
+        };
+        if same {
+            return Verdict::Pass;
+        }
+        let msg = format!("sum_simd = {:?} but arrow::compute::sum = {:?} for {}", got, want, show(&a.logical()));
+        // open finding: no valid element (empty or all-NULL) sums to 0, Arrow returns None
+        let zero = match &gotc {
+            Some(Cell::I(0)) => true,
+            Some(Cell::F(x)) => *x == 0.0,
+            _ => false,
+        };
+        if want.is_none() && want_count == 0 && zero {
+            obs.label("known:empty-sum-is-zero");
+            return Verdict::Known { id: "c37-sum-of-no-values-is-zero".into(), msg };
+        }
+        Verdict::Fail(msg)
+    }
+}
 
 pub fn property() -> Property {
-    Property { id: "C37", level: "exploration", assumptions: &[], checks: vec![] }
+    Property {
+        id: "C37",
+        level: "exploration",
+        assumptions: &[
+            "a helper's explicit 'Unsupported type' error for a type it does not dispatch on (e.g. filter_simd on Utf8, sum_simd on Boolean) is a refusal, not a wrong answer; encode_optimal is total by design (it has a Flat fallback), so an Err/panic there on one of the five quantified types counts as a failed round trip",
+            "integer operands of add/multiply/sum are bounded by 2^31 so overflow behaviour (wrapping vs panic) is not in play; float addends of sum are multiples of 1/8 below 2^20 so the summation order does not matter",
+            "the 'equivalent Arrow kernels' are arrow::compute::filter, kernels::cmp::{eq,neq,lt,lt_eq,gt,gt_eq}, kernels::numeric::{add_wrapping,mul_wrapping}, aggregate::sum and len-null_count (arrow 58)",
+            "equality of arrays is logical: data type, length, validity and values (floats by bits, any NaN = NaN); the content of slots under a NULL is not compared",
+        ],
+        checks: vec![
+            Box::new(EncodeRoundTrip),
+            Box::new(FilterSimd),
+            Box::new(CompareSimd),
+            Box::new(ArithSimd),
+            Box::new(AggSimd),
+        ],
+    }
 }
